@@ -743,7 +743,7 @@ class Fxp():
             raise ValueError('Not supported input type: {}'.format(type(val)))
 
         # convert to (numpy) ndarray
-        val = np.array(val)
+        val = utils.int_list_array(val) if isinstance(val, (list, tuple)) else np.array(val)
 
         if vdtype is None:
             vdtype = val.dtype
@@ -878,7 +878,7 @@ class Fxp():
 
             if val_dtype == object:       
                 # convert each element to int
-                new_val = np.array(list(map(int, new_val.flatten()))).reshape(new_val.shape).astype(val_dtype)
+                new_val = np.array(list(map(int, new_val.flatten())), dtype=object).reshape(new_val.shape)
             
             if index is not None:
                 self.val[index] = new_val
